@@ -21,7 +21,7 @@ type c12 struct{}
 func (c12) ID() string    { return "C12" }
 func (c12) Level() string { return "exploration" }
 func (c12) Rule() string {
-	return "10 path-bearing attribute kinds (build context, additional context, env_file, label_file, bind source in short and long syntax, secret file, config file, develop watch path, bind device of a local volume) x 17 path shapes (./x, x/y, ../x, ., /abs, ~/x, ~, C:\\x, \\\\srv\\share, https://, git@, docker-image://, ssh://) x 12 origins (main, main given as content under a relative name, base and extending service in one file - in the main file and in an included file -, override, include depth 1, include depth 2, extended base in another directory, extended base used from an included file, extended base / included file in a sibling directory whose name starts with the project directory's name) x 3 working-directory shapes, and again with the service and resources named with an x- prefix, with resolution on (and off for main/override); expected value from the anchoring reference (Appendix A.5); references recognised by one of three registered remote loaders (each position; directly and nested below a file extended from another directory); plus the corpus documents with `./p` placed in every non-path string position (nothing may be anchored), and idempotence (render, reload, compare). distinct = distinct (attribute, shape, origin) outcomes"
+	return "10 path-bearing attribute kinds (build context, additional context, env_file, label_file, bind source in short and long syntax, secret file, config file, develop watch path, bind device of a local volume) x 17 path shapes (./x, x/y, ../x, ., /abs, ~/x, ~, C:\\x, \\\\srv\\share, https://, git@, docker-image://, ssh://) x 12 origins (main, main given as content under a relative name, base and extending service in one file - in the main file and in an included file -, override, include depth 1, include depth 2, extended base in another directory, extended base used from an included file, extended base / included file in a sibling directory whose name starts with the project directory's name) x 3 working-directory shapes, and again with the service and resources named with an x- prefix, and with a remote resource loader registered that recognises none of the references, with resolution on (and off for main/override); expected value from the anchoring reference (Appendix A.5); references recognised by one of three registered remote loaders (each position; directly and nested below a file extended from another directory); plus the corpus documents with `./p` placed in every non-path string position (nothing may be anchored), and idempotence (render, reload, compare). distinct = distinct (attribute, shape, origin) outcomes"
 }
 func (c12) Assumptions() []string {
 	return []string{
@@ -125,6 +125,15 @@ func (c12) Run(c *core.Ctx) {
 						a, sh, origin, wd, resolve := a, sh, origin, wd, resolve
 						id := fmt.Sprintf("%s/%s/%s/wd%d/r%v", a.name, sh.v, origin, wi, resolve)
 						c.Do(id, func() core.Outcome { c12pre = ""; return c12case(id, a, sh, origin, wd, resolve, home) })
+						if wi == 0 && resolve {
+							// the same with a remote resource loader registered that recognises none of the references
+							c.Do(id+"/idle-remote-loader", func() core.Outcome {
+								c12pre = ""
+								c12idleLoader = true
+								defer func() { c12idleLoader = false }()
+								return c12case(id+"/idle-remote-loader", a, sh, origin, wd, resolve, home)
+							})
+						}
 						if (wi == 0 || !c.Quick()) && resolve {
 							// the same with the service and the resources named like extension keys
 							c.Do(id+"/x-names", func() core.Outcome {
@@ -255,6 +264,9 @@ func c12remotes(c *core.Ctx) {
 	}
 }
 
+// c12idleLoader: the case being run registers a remote loader that recognises none of its references
+var c12idleLoader bool
+
 // c12case: a case with a `~` path is run twice, under two different home directories one after the other: `~` is the home
 // directory of the moment, not the one of the first load of the process.
 func c12case(id string, a c12attr, sh c12shape, origin, wd string, resolve bool, home string) core.Outcome {
@@ -369,6 +381,11 @@ func c12caseAt(id string, a c12attr, sh c12shape, origin, wd string, resolve boo
 		}
 	}
 	s := &Scn{Files: files, Main: main, WD: wd, InMem: origin == "main-content-relname", RelNames: origin == "main-content-relname"}
+	if c12idleLoader {
+		s.Opts = append(s.Opts, func(o *loader.Options) {
+			o.ResourceLoaders = append(o.ResourceLoaders, c12remote{"idle", filepath.Join(Scratch(), "idle-remote")})
+		})
+	}
 	if !resolve {
 		s.Opts = []func(*loader.Options){func(o *loader.Options) { o.ResolvePaths = false }}
 	}
